@@ -118,6 +118,16 @@ func genC13(t *rapid.T) *C13Case {
 	c := &C13Case{D: d}
 	c.Lines = genIniLines(t, d, 8, true)
 	c.AsDefaults = rapid.Bool().Draw(t, "asDefaults")
+	// a value far longer than any read buffer (the command line takes it too)
+	if rapid.IntRange(0, 59).Draw(t, "hugeValue") == 0 {
+		for i := range c.Lines {
+			scope, _ := iniScope(d, c.Lines[i].Section)
+			if o := iniResolve(scope, c.Lines[i].Key); o != nil && (o.Kind == KString || o.Kind == KStringSlice) && len(o.Choices) == 0 {
+				c.Lines[i].Value = strings.Repeat("long value ", rapid.SampledFrom([]int{6000, 7000, 100000}).Draw(t, "hugeLen"))
+				break
+			}
+		}
+	}
 	if len(c.Lines) >= 1 && rapid.IntRange(0, 5).Draw(t, "rejectedEntry") == 0 {
 		var cands []IniLine
 		for _, o := range d.AllOpts() {
